@@ -17,11 +17,17 @@ Rendered ==
         \E q \in DOMAIN ev.got[i] : ev.got[i][q].name = ev.want[i][j].name /\ ev.got[i][q].val = ev.want[i][j].val
 TArrive == IsEvent("Arrive") /\ Arrive(ev.id) /\ Rendered /\ ev.stored = Len(win')
 
+\* a burst received through the collector's own receive loop: stored in the order received
+TArriveBatch == /\ IsEvent("ArriveBatch")
+                /\ LET all == win \o ev.ids IN
+                     win' = (IF Len(all) > Cap THEN LastN(all, Cap) ELSE all)
+                /\ arrivals' = arrivals \o ev.ids
+                /\ ev.stored = Len(win')
 TQuery == /\ IsEvent("Query") /\ Query
           /\ ev.status = QueryStatus(ev.method, ev.count, ev.format)
           /\ ev.status = 200 => ev.ids = QueryResult(ev.count)
 TResetReq == /\ IsEvent("ResetReq") /\ ResetReq(ev.method)
              /\ ev.status = ResetStatus(ev.method) /\ ev.stored = Len(win')
-Next == TReset \/ TArrive \/ TQuery \/ TResetReq
+Next == TReset \/ TArrive \/ TArriveBatch \/ TQuery \/ TResetReq
 Spec == Init /\ [][Next]_vars
 =============================================================================
